@@ -253,9 +253,11 @@ CHECKS["C05"] = dict(
          "one Close takes effect, transport closed once, inactive once, inside that Close call and carrying its argument (identity); "
          "IsActive false right after every Close return; context cancelled after the effective Close returned; read loop ends after a "
          "read failure. 1 case in 40 is a stress case without scheduler (2-8 real goroutines released by a barrier call Close at once, "
-         "150 rounds) because the closer election itself contains no yield point. Non-trivial = at least two Close calls whose executions overlap. Distinct by case hash.",
+         "150 rounds) because the closer election itself contains no yield point; 1 case in 200 connects 2-8 real goroutines at once "
+         "through one bootstrap with its defaults (sequence ids, channel holder), 300 rounds: every channel handed out has had its active "
+         "event exactly once behind the holder, and after Close its inactive event exactly once. Non-trivial = at least two Close calls whose executions overlap. Distinct by case hash.",
     replay_repeat=30,
-    required=["closes-overlap", "stress", "scheduled-activation", "close-source:task", "close-source:HandleActive", "close-source:HandleRead",
+    required=["closes-overlap", "stress", "connect-stress", "scheduled-activation", "close-source:task", "close-source:HandleActive", "close-source:HandleRead",
               "close-source:HandleEvent", "close-source:holder", "winner:implicit", "nil-error-close", "read-failed", "read-failure-swallowed-by-handler", "read-failure-wrapped", "reads-delivered",
               "kind:sync", "kind:qblock", "kind:qnonblock"],
     assumptions=_E1_ASSUME + ["ServeChannel's wait for the activation has no yield point: its task continues on its own (detached) and its return is ordered by sequence numbers"],
